@@ -28,7 +28,7 @@ static vx::Shard S;
 
 enum { MAXN = 9, MAXH = MAXN * (MAXN + 1) / 2 };
 static const double SENT = -7.77777e77;     // pre-fill of derivs/hes: "slot was never written"
-static long HORIZON_MS = 50;                 // CPU milliseconds per single binding call (see check.py: two phases)
+static long HORIZON_MS = 200;                // CPU milliseconds per single binding call (see check.py: two phases)
 static const double NaN = std::nan("");
 
 // ------------------------------------------------------------------ registration (AmplExports)
@@ -49,13 +49,21 @@ struct Res {
   bool err; char kind;      // kind: 0 none, 'v' value error, 'd' message starts with ', 'h' with "
   std::string msg;
 };
+// per-(function, arity) counters; live in shared memory so that a child that dies loses nothing
+enum { V_NV = 5 };
+struct FStat {
+  long long tuples, cases, noerr, err, d1[V_NV], d2[V_NV], d1_inf, d2_inf, nan_value_with_deriv_error,
+            calls, fd_evals, space;
+  unsigned long long cls;     // observation classes: bit (mode*5 + outcome), 15 + verdict (d1), 21 + verdict (d2)
+};
+enum { O_ERR = 0, O_DERR = 1, O_HERR = 2, O_VALUE = 3, O_INF = 4, C_D1 = 15, C_D2 = 21, C_INF = 5 };
 struct Shm {                 // case in flight, visible to the parent after a crash
   volatile long long tuple; volatile int mode; volatile int cfg; volatile int n; volatile int stage;
   double x[MAXN]; volatile long long calls;
   volatile int ip[MAXN]; volatile int probe_pos;      // integer-only positions found by the probe child
+  FStat st;
 };
 static Shm* SHM;
-static long long g_calls = 0;
 
 static void call(const Fn& f, int n, const double* x, int mode, const char* dig, Res& r) {
   arglist al; std::memset(&al, 0, sizeof al);
@@ -80,7 +88,7 @@ static void call(const Fn& f, int n, const double* x, int mode, const char* dig,
     r.msg.clear();
   }
   setitimer(ITIMER_VIRTUAL, &off, nullptr);
-  ++g_calls; SHM->calls = g_calls;
+  ++SHM->st.calls; SHM->calls = SHM->st.calls;
   if (slowdiag) {
     clock_gettime(CLOCK_PROCESS_CPUTIME_ID, &t1);
     double dt = (t1.tv_sec - t0.tv_sec) + (t1.tv_nsec - t0.tv_nsec) * 1e-9;
@@ -140,42 +148,57 @@ static bool close_to(double a, double b, double rel, double abs_) {
 enum Verdict { V_OK, V_UNSTABLE, V_MARGINAL, V_KINK, V_MISMATCH, V_NVERDICT };
 static const char* VNAME[] = {"ok", "fd_unstable", "fd_marginal", "one_sided_at_kink", "MISMATCH"};
 
-// Difference quotients of an m-component function along coordinate i at x, for up to 4 steps:
-// family 0 = relative steps |x_i| * 2^-10, 2^-14; family 1 = absolute steps 2^-10, 2^-14.
+// Difference quotients of an m-component function along coordinate i at x over a ladder of step
+// families (two steps each, ratio 16): absolute 2^-10/2^-14, 2^-24/2^-28, 2^-37/2^-41 and, for
+// |x_i| not in {0,1}, relative |x_i|*2^-10/2^-14, |x_i|*2^-24/2^-28.  The small families exist so that
+// features much narrower than 1e-3 (arguments 1e-8 are in the lattice) are seen before anything is
+// called a mismatch.
+enum { NFAM = 5, NSTEP = 2 * NFAM };
 struct Dir {
-  int ns = 0; int fam[4]; double h[4];
-  double c[4][MAXN], fw[4][MAXN], bw[4][MAXN];     // central / forward / backward; NaN = unusable
+  int ns = 0; int fam[NSTEP]; double h[NSTEP];
+  double c[NSTEP][MAXN], fw[NSTEP][MAXN], bw[NSTEP][MAXN];   // central / forward / backward; NaN = unusable
+  double nf[NSTEP][MAXN];      // noise floor of the central quotient: 64 ulp of the values / step
+  double mid[NSTEP][MAXN];     // |f0 - (f+ + f-)/2|: shrinks ~256x per family for a smooth function
+  double mag[NSTEP][MAXN];     // max(|f0|,|f+|,|f-|)
   bool centre_ok = false;
 };
 typedef std::function<bool(const double*, double*)> VecFn;   // false = binding reported an error
-static long long g_fd_evals = 0;
 
 static void directional(const VecFn& F, int m, const double* x, int n, int i, Dir& D) {
   D.ns = 0;
   double xi = x[i];
   if (!std::isfinite(xi)) return;
-  double f0[MAXN]; D.centre_ok = F(x, f0); ++g_fd_evals;
-  double steps[4]; int fams[4]; int ns = 0;
+  double f0[MAXN]; D.centre_ok = F(x, f0); ++SHM->st.fd_evals;
+  double steps[NSTEP]; int fams[NSTEP]; int ns = 0;
   double a = std::fabs(xi);
-  if (a != 0 && a != 1) { steps[ns] = a / 1024; fams[ns++] = 0; steps[ns] = a / 16384; fams[ns++] = 0; }
-  steps[ns] = 1.0 / 1024; fams[ns++] = 1; steps[ns] = 1.0 / 16384; fams[ns++] = 1;
+  auto add = [&](int f, double h1) { steps[ns] = h1; fams[ns++] = f; steps[ns] = h1 / 16; fams[ns++] = f; };
+  add(0, std::ldexp(1.0, -10)); add(1, std::ldexp(1.0, -24)); add(2, std::ldexp(1.0, -37));
+  if (a != 0 && a != 1) { add(3, std::ldexp(a, -10)); add(4, std::ldexp(a, -24)); }
   double xx[MAXN];
   for (int k = 0; k < n; ++k) xx[k] = x[k];
+  const double EPS = 2.220446049250313e-16;
   for (int s = 0; s < ns; ++s) {
     double xp = xi + steps[s], xm = xi - steps[s];
     double fp[MAXN], fm[MAXN];
-    xx[i] = xp; bool okp = F(xx, fp);
-    xx[i] = xm; bool okm = F(xx, fm);
-    g_fd_evals += 2;
-    xx[i] = xi;
+    // the step must survive the rounding of x +- h to within 1/8 (otherwise the quotient is meaningless)
+    bool step_ok = std::fabs((xp - xi) - steps[s]) <= steps[s] / 8 && std::fabs((xi - xm) - steps[s]) <= steps[s] / 8;
+    bool okp = false, okm = false;
+    if (step_ok) {
+      xx[i] = xp; okp = F(xx, fp);
+      xx[i] = xm; okm = F(xx, fm);
+      SHM->st.fd_evals += 2;
+      xx[i] = xi;
+    }
     D.fam[s] = fams[s]; D.h[s] = steps[s];
     for (int c = 0; c < m; ++c) {
       bool up = okp && std::isfinite(fp[c]), um = okm && std::isfinite(fm[c]);
       bool u0 = D.centre_ok && std::isfinite(f0[c]);
-      bool step_ok = xp != xi && xm != xi;
-      D.c[s][c] = (up && um && step_ok) ? (fp[c] - fm[c]) / (xp - xm) : NaN;
-      D.fw[s][c] = (up && u0 && step_ok) ? (fp[c] - f0[c]) / (xp - xi) : NaN;
-      D.bw[s][c] = (um && u0 && step_ok) ? (f0[c] - fm[c]) / (xi - xm) : NaN;
+      D.c[s][c] = (up && um) ? (fp[c] - fm[c]) / (xp - xm) : NaN;
+      D.fw[s][c] = (up && u0) ? (fp[c] - f0[c]) / (xp - xi) : NaN;
+      D.bw[s][c] = (um && u0) ? (f0[c] - fm[c]) / (xi - xm) : NaN;
+      D.nf[s][c] = (up && um) ? 64 * EPS * std::fmax(std::fabs(fp[c]), std::fabs(fm[c])) / (xp - xm) : NaN;
+      D.mid[s][c] = (up && um && u0) ? std::fabs(f0[c] - 0.5 * (fp[c] + fm[c])) : NaN;
+      D.mag[s][c] = (up && um && u0) ? std::fmax(std::fabs(f0[c]), std::fmax(std::fabs(fp[c]), std::fabs(fm[c]))) : NaN;
     }
   }
   D.ns = ns;
@@ -183,31 +206,48 @@ static void directional(const VecFn& F, int m, const double* x, int n, int i, Di
 
 static const double TOL_REL = 1e-4, TOL_ABS = 1e-7, WIDE_REL = 1e-3, WIDE_ABS = 1e-6;
 
-// analytic value a against the estimates of component c
-static Verdict verdict(double a, const Dir& D, int c, std::string* est) {
+// Analytic value a against the estimates of component c.  `allow` = 1e-9 x the largest finite output of
+// the same call (conditioning allowance: an output is not expected to be more accurate than that).
+//  OK        a agrees (1e-4 rel + 1e-7 abs + allow) with any finite estimate;
+//  MISMATCH  at least one family is stable (its two steps agree, both above their noise floor) and
+//            smooth (midpoint defect shrinks >= 64x between the two steps), all stable families agree
+//            with each other, a is outside 1e-3 rel + 1e-6 abs + allow of every estimate of the stable
+//            families and matches no one-sided quotient;
+//  everything else is not judged.
+static Verdict verdict(double a, const Dir& D, int c, double allow, std::string* est) {
   if (est) {
     est->clear();
     for (int s = 0; s < D.ns; ++s) *est += (s ? "," : "") + num17(D.c[s][c]);
   }
   for (int s = 0; s < D.ns; ++s)
-    if (std::isfinite(D.c[s][c]) && close_to(a, D.c[s][c], TOL_REL, TOL_ABS)) return V_OK;
-  bool stable[2] = {false, false}; double rep[2] = {0, 0};
-  for (int f = 0; f < 2; ++f) {
+    if (std::isfinite(D.c[s][c]) && close_to(a, D.c[s][c], TOL_REL, TOL_ABS + allow)) return V_OK;
+  bool stable[NFAM], smooth[NFAM]; double rep[NFAM];
+  int nstable = 0, nsmooth = 0;
+  for (int f = 0; f < NFAM; ++f) {
+    stable[f] = smooth[f] = false; rep[f] = 0;
     int s1 = -1, s2 = -1;
     for (int s = 0; s < D.ns; ++s) if (D.fam[s] == f) { if (s1 < 0) s1 = s; else s2 = s; }
     if (s2 < 0) continue;
     double e1 = D.c[s1][c], e2 = D.c[s2][c];
-    if (std::isfinite(e1) && std::isfinite(e2) && close_to(e1, e2, TOL_REL, TOL_ABS)) { stable[f] = true; rep[f] = e2; }
+    if (!std::isfinite(e1) || !std::isfinite(e2)) continue;
+    if (!(D.nf[s1][c] <= TOL_REL * std::fabs(e1) + TOL_ABS + allow)) continue;
+    if (!(D.nf[s2][c] <= TOL_REL * std::fabs(e2) + TOL_ABS + allow)) continue;
+    if (!close_to(e1, e2, TOL_REL, TOL_ABS + allow)) continue;
+    stable[f] = true; rep[f] = e2; ++nstable;
+    if (std::isfinite(D.mid[s1][c]) && std::isfinite(D.mid[s2][c]) &&
+        D.mid[s2][c] <= D.mid[s1][c] / 64 + 1e-8 * D.mag[s2][c] + 1e-300) { smooth[f] = true; ++nsmooth; }
   }
-  if (!stable[0] && !stable[1]) return V_UNSTABLE;
-  if (stable[0] && stable[1] && !close_to(rep[0], rep[1], TOL_REL, TOL_ABS)) return V_UNSTABLE;
+  if (!nstable) return V_UNSTABLE;
+  for (int f = 0; f < NFAM; ++f) for (int g = f + 1; g < NFAM; ++g)
+    if (stable[f] && stable[g] && !close_to(rep[f], rep[g], TOL_REL, TOL_ABS + allow)) return V_UNSTABLE;
   for (int s = 0; s < D.ns; ++s)
-    if (stable[D.fam[s]] && close_to(a, D.c[s][c], WIDE_REL, WIDE_ABS)) return V_MARGINAL;
+    if (stable[D.fam[s]] && close_to(a, D.c[s][c], WIDE_REL, WIDE_ABS + allow)) return V_MARGINAL;
   for (int s = 0; s < D.ns; ++s) {
     if (!stable[D.fam[s]]) continue;
-    if (std::isfinite(D.fw[s][c]) && close_to(a, D.fw[s][c], 1e-2, 1e-5)) return V_KINK;
-    if (std::isfinite(D.bw[s][c]) && close_to(a, D.bw[s][c], 1e-2, 1e-5)) return V_KINK;
+    if (std::isfinite(D.fw[s][c]) && close_to(a, D.fw[s][c], 1e-2, 1e-5 + allow)) return V_KINK;
+    if (std::isfinite(D.bw[s][c]) && close_to(a, D.bw[s][c], 1e-2, 1e-5 + allow)) return V_KINK;
   }
+  if (!nsmooth) return V_UNSTABLE;
   return V_MISMATCH;
 }
 
@@ -259,11 +299,8 @@ static bool check_pairwise(const Space& sp) {
 }
 
 // ------------------------------------------------------------------ per-function exploration
-struct FStat {
-  long long tuples = 0, cases = 0, noerr = 0, err = 0, d1[V_NVERDICT] = {0}, d2[V_NVERDICT] = {0},
-            d1_inf = 0, d2_inf = 0, nan_value_with_deriv_error = 0;
-};
 static bool g_random;     // current function is RANDOM_VALUED
+static bool g_lite;       // --lite: one call per mode, integer positions constant, no finite differences (phase 2)
 static void viol(const Fn& f, const std::string& clause, const double* x, int n, const std::string& detail) {
   R.violation(f.name + " " + clause + " at " + point(x, n),
               "{\"function\":\"" + f.name + "\",\"point\":" + point_json(x, n) + "," + detail + "}",
@@ -280,7 +317,8 @@ static void run_tuple(const Fn& f, int n, const std::vector<bool>& ip, const dou
   std::vector<Cfg> cfgs;
   { Cfg c; c.name = "int-constant"; c.has_dig = any_int; for (int i = 0; i < n; ++i) c.dig[i] = ip[i]; cfgs.push_back(c); }
   if (any_int) { Cfg c; c.name = "none-constant"; c.has_dig = false; for (int i = 0; i < n; ++i) c.dig[i] = 0; cfgs.push_back(c); }
-  if (nreal >= 2)
+  if (g_lite) cfgs.resize(1);
+  if (nreal >= 2 && !g_lite)
     for (int a = 0; a < n; ++a) if (!ip[a]) {
       Cfg c; c.name = "only-x" + std::to_string(a); c.has_dig = true;
       for (int i = 0; i < n; ++i) c.dig[i] = i != a;
@@ -308,7 +346,7 @@ static void run_tuple(const Fn& f, int n, const std::vector<bool>& ip, const dou
     Res r, r2;
     call(f, n, x, mode, dig, r);
     SHM->stage = 2;
-    call(f, n, x, mode, dig, r2);
+    if (g_lite) r2 = r; else call(f, n, x, mode, dig, r2);
     SHM->stage = 3;
     ++st.cases;
     std::string ctx = std::string("\"mode\":\"") + MODE[mode] + "\",\"dig\":\"" + cf.name + "\"";
@@ -316,21 +354,25 @@ static void run_tuple(const Fn& f, int n, const std::vector<bool>& ip, const dou
     if (!g_random && !same_bits(r, r2, n, mode, &what))
       viol(f, "nondeterministic " + what, x, n, ctx + ",\"first\":" + num17(r.v) + ",\"second\":" + num17(r2.v) +
            ",\"msg1\":\"" + vx::jesc(r.msg) + "\",\"msg2\":\"" + vx::jesc(r2.msg) + "\"");
-    std::string cls = f.name + ":" + MODE[mode] + ":";
     if (r.err) {
       ++st.err;
-      R.cls(cls + (r.kind == 'v' ? "error" : r.kind == 'd' ? "deriv-error" : "hes-error"));
+      st.cls |= 1ULL << (mode * 5 + (r.kind == 'v' ? O_ERR : r.kind == 'd' ? O_DERR : O_HERR));
       if (r.kind != 'v' && std::isnan(r.v)) ++st.nan_value_with_deriv_error;
       continue;
     }
     ++st.noerr;
-    R.cls(cls + (std::isinf(r.v) ? "inf" : "value"));
+    st.cls |= 1ULL << (mode * 5 + (std::isinf(r.v) ? O_INF : O_VALUE));
     if (f.type == FUNCADD_STRING_VALUED) {
       if (std::isnan(r.v)) viol(f, "null string without Errmsg", x, n, ctx);
       continue;
     }
     if (std::isnan(r.v)) { viol(f, "NaN value without Errmsg", x, n, ctx); continue; }
     if (mode == 0) continue;
+    // conditioning allowance: 1e-9 x the largest finite output of this call
+    double big = std::fabs(r.v);
+    for (int i = 0; i < n; ++i) if (std::isfinite(r.d[i]) && !is_sent(r.d[i])) big = std::fmax(big, std::fabs(r.d[i]));
+    if (mode >= 2) for (int i = 0; i < n * (n + 1) / 2; ++i) if (std::isfinite(r.h[i]) && !is_sent(r.h[i])) big = std::fmax(big, std::fabs(r.h[i]));
+    double allow = std::isfinite(big) ? 1e-9 * big : 0;
     // ---- first derivatives
     for (int i = 0; i < n; ++i) {
       if (cf.has_dig && cf.dig[i]) continue;        // partial not requested
@@ -342,11 +384,11 @@ static void run_tuple(const Fn& f, int n, const std::vector<bool>& ip, const dou
       double a = r.d[i];
       if (is_sent(a)) { viol(f, dn + " left unset without Errmsg", x, n, ctx); continue; }
       if (std::isnan(a)) { viol(f, "NaN " + dn + " without Errmsg", x, n, ctx); continue; }
-      if (std::isinf(a)) { ++st.d1_inf; R.cls(f.name + ":d1:inf"); continue; }
-      if (!std::isfinite(x[i])) continue;
+      if (std::isinf(a)) { ++st.d1_inf; st.cls |= 1ULL << (C_D1 + C_INF); continue; }
+      if (!std::isfinite(x[i]) || g_lite) continue;
       if (!have1[i]) { directional(valF, 1, x, n, i, fd1[i]); have1[i] = true; }
-      std::string est; Verdict v = verdict(a, fd1[i], 0, &est);
-      ++st.d1[v]; R.cls(f.name + ":d1:" + VNAME[v]);
+      std::string est; Verdict v = verdict(a, fd1[i], 0, allow, &est);
+      ++st.d1[v]; st.cls |= 1ULL << (C_D1 + v);
       if (v == V_MISMATCH)
         viol(f, dn + " mismatch", x, n, ctx + ",\"returned\":" + num17(a) + ",\"central_differences\":[" + est +
              "],\"value\":" + num17(r.v));
@@ -360,20 +402,20 @@ static void run_tuple(const Fn& f, int n, const std::vector<bool>& ip, const dou
       double a = r.h[hidx(i, j, n)];
       if (is_sent(a)) { viol(f, dn + " left unset without Errmsg", x, n, ctx); continue; }
       if (std::isnan(a)) { viol(f, "NaN " + dn + " without Errmsg", x, n, ctx); continue; }
-      if (std::isinf(a)) { ++st.d2_inf; R.cls(f.name + ":d2:inf"); continue; }
-      if (!std::isfinite(x[i]) || !std::isfinite(x[j])) continue;
+      if (std::isinf(a)) { ++st.d2_inf; st.cls |= 1ULL << (C_D2 + C_INF); continue; }
+      if (!std::isfinite(x[i]) || !std::isfinite(x[j]) || g_lite) continue;
       if (!have2[i]) { directional(derF, n, x, n, i, fd2[i]); have2[i] = true; }
       if (!have2[j]) { directional(derF, n, x, n, j, fd2[j]); have2[j] = true; }
       std::string e1, e2;
-      Verdict v1 = verdict(a, fd2[i], j, &e1);      // d/dx_i of derivs[j]
-      Verdict v2 = i == j ? v1 : verdict(a, fd2[j], i, &e2);
+      Verdict v1 = verdict(a, fd2[i], j, allow, &e1);      // d/dx_i of derivs[j]
+      Verdict v2 = i == j ? v1 : verdict(a, fd2[j], i, allow, &e2);
       Verdict v;
       if (v1 == V_OK || v2 == V_OK) v = V_OK;
       else if (v1 == V_MARGINAL || v2 == V_MARGINAL) v = V_MARGINAL;
       else if (v1 == V_KINK || v2 == V_KINK) v = V_KINK;
       else if (v1 == V_MISMATCH || v2 == V_MISMATCH) v = V_MISMATCH;
       else v = V_UNSTABLE;
-      ++st.d2[v]; R.cls(f.name + ":d2:" + VNAME[v]);
+      ++st.d2[v]; st.cls |= 1ULL << (C_D2 + v);
       if (v == V_MISMATCH)
         viol(f, dn + " mismatch", x, n, ctx + ",\"returned\":" + num17(a) + ",\"differences_of_derivs\":[" + e1 +
              (i == j ? "" : "],\"other_direction\":[" + e2) + "]");
@@ -411,28 +453,31 @@ static std::vector<int> arities(const Fn& f) {
   return a;
 }
 
-static void emit_child(const Fn& f, int n, const std::vector<bool>& ip, const FStat& st, long long space) {
+// parent: fold the counters of one (function, arity) into the report
+static void emit_function(const Fn& f, int n) {
+  const FStat st = SHM->st;
   std::string ips;
-  for (int i = 0; i < n; ++i) if (ip[i]) ips += (ips.empty() ? "" : ",") + std::to_string(i);
+  for (int i = 0; i < n; ++i) if (SHM->ip[i]) ips += (ips.empty() ? "" : ",") + std::to_string(i);
   std::printf("{\"type\":\"func\",\"name\":\"%s\",\"arity\":%d,\"nargs\":%d,\"random\":%d,\"int_pos\":[%s],\"space\":%lld,"
               "\"tuples\":%lld,\"cases\":%lld,\"noerr\":%lld,\"err\":%lld,\"d1_judged\":%lld,\"d2_judged\":%lld,"
               "\"d1_unstable\":%lld,\"d2_unstable\":%lld}\n",
-              f.name.c_str(), n, f.nargs, f.type == FUNCADD_RANDOM_VALUED, ips.c_str(), space, st.tuples, st.cases,
+              f.name.c_str(), n, f.nargs, f.type == FUNCADD_RANDOM_VALUED, ips.c_str(), st.space, st.tuples, st.cases,
               st.noerr, st.err, st.d1[V_OK] + st.d1[V_MISMATCH], st.d2[V_OK] + st.d2[V_MISMATCH],
               st.d1[V_UNSTABLE] + st.d1[V_MARGINAL] + st.d1[V_KINK], st.d2[V_UNSTABLE] + st.d2[V_MARGINAL] + st.d2[V_KINK]);
   R.stat("tuples", st.tuples); R.stat("cases", st.cases); R.stat("cases_no_error", st.noerr);
-  R.stat("cases_error", st.err); R.stat("binding_calls", g_calls); R.stat("fd_evaluations", g_fd_evals);
+  R.stat("cases_error", st.err); R.stat("binding_calls", st.calls); R.stat("fd_evaluations", st.fd_evals);
   for (int v = 0; v < V_NVERDICT; ++v) {
     R.stat(std::string("d1_") + VNAME[v], st.d1[v]); R.stat(std::string("d2_") + VNAME[v], st.d2[v]);
   }
   R.stat("d1_infinite_not_judged", st.d1_inf); R.stat("d2_infinite_not_judged", st.d2_inf);
   R.stat("nan_value_with_derivative_only_error", st.nan_value_with_deriv_error);
-  // child: print stats + classes, no completion marker (the parent prints it)
-  std::printf("{\"type\":\"stat\"");
-  for (auto& kv : R.stats) std::printf(",\"%s\":%lld", vx::jesc(kv.first).c_str(), kv.second);
-  std::printf("}\n");
-  for (auto& c : R.classes) std::printf("{\"type\":\"class\",\"v\":\"%s\"}\n", vx::jesc(c).c_str());
-  std::fflush(stdout);
+  static const char* ON[] = {"error", "deriv-error", "hes-error", "value", "inf"};
+  for (int m = 0; m < 3; ++m) for (int o = 0; o < 5; ++o)
+    if (st.cls >> (m * 5 + o) & 1) R.cls(f.name + ":" + MODE[m] + ":" + ON[o]);
+  for (int v = 0; v <= C_INF; ++v) {
+    if (st.cls >> (C_D1 + v) & 1) R.cls(f.name + ":d1:" + (v == C_INF ? "inf" : VNAME[v]));
+    if (st.cls >> (C_D2 + v) & 1) R.cls(f.name + ":d2:" + (v == C_INF ? "inf" : VNAME[v]));
+  }
 }
 
 static std::vector<bool> shm_ip(int n) { std::vector<bool> ip(n); for (int i = 0; i < n; ++i) ip[i] = SHM->ip[i] != 0; return ip; }
@@ -443,9 +488,10 @@ static void child_run(size_t k, int n, bool thorough, long long start) {
   g_random = f.type == FUNCADD_RANDOM_VALUED;
   std::vector<bool> ip = shm_ip(n);
   std::vector<Space> sps = make_spaces(n, ip, thorough);
-  FStat st; double x[MAXN];
+  FStat& st = SHM->st; double x[MAXN];
   long long N = 0, base = 0;
   for (auto& sp : sps) N += n == 0 ? 1 : sp.size();
+  st.space = N;
   for (auto& sp : sps) {
     long long sz = n == 0 ? 1 : sp.size();
     for (long long u = std::max(0LL, start - base); u < sz; ++u) {
@@ -461,7 +507,6 @@ static void child_run(size_t k, int n, bool thorough, long long start) {
     }
     base += sz;
   }
-  emit_child(f, n, ip, st, N);
 }
 
 static const char* signame(int s) {
@@ -507,6 +552,7 @@ static void explore_function(size_t k, int n, bool thorough, bool single) {
   const Fn& f = FNS[k];
   double keep[MAXN]; for (int i = 0; i < MAXN; ++i) keep[i] = SHM->x[i];
   probe_function(k, n);
+  std::memset((void*)&SHM->st, 0, sizeof(FStat));
   long long start = 0;
   for (int restarts = 0;; ++restarts) {
     std::fflush(stdout);
@@ -518,10 +564,9 @@ static void explore_function(size_t k, int n, bool thorough, bool single) {
       if (single) {     // replay of a single tuple
         g_random = f.type == FUNCADD_RANDOM_VALUED;
         std::vector<bool> ip = shm_ip(n);
-        FStat st; SHM->tuple = 0;
+        SHM->tuple = 0; SHM->st.space = 1;
         for (int i = 0; i < n; ++i) SHM->x[i] = keep[i];
-        run_tuple(f, n, ip, keep, st); st.tuples = 1;
-        emit_child(f, n, ip, st, 1);
+        run_tuple(f, n, ip, keep, SHM->st); SHM->st.tuples = 1;
       } else child_run(k, n, thorough, start);
       _exit(0);
     }
@@ -533,13 +578,13 @@ static void explore_function(size_t k, int n, bool thorough, bool single) {
       std::fprintf(stderr, "TIMING %s n=%d cpu=%.3f calls=%lld\n", f.name.c_str(), n, now - last, (long long)SHM->calls);
       last = now;
     }
-    if (WIFEXITED(status) && WEXITSTATUS(status) == 0) return;
+    if (WIFEXITED(status) && WEXITSTATUS(status) == 0) { emit_function(f, n); return; }
     long long t = SHM->tuple;
     double x[MAXN]; for (int i = 0; i < n; ++i) x[i] = SHM->x[i];
     std::string how = WIFSIGNALED(status) ? signame(WTERMSIG(status)) : "exit status " + std::to_string(WEXITSTATUS(status));
     std::string ctx = std::string("\"mode\":\"") + MODE[SHM->mode % 3] + "\",\"dig_cfg\":" + std::to_string(SHM->cfg) +
                       ",\"stage\":" + std::to_string(SHM->stage) + ",\"how\":\"" + how + "\"";
-    if (t < 0) { R.broken("child for " + f.name + " died before the first tuple: " + how); return; }
+    if (t < 0) { R.broken("child for " + f.name + " died before the first tuple: " + how); emit_function(f, n); return; }
     bool timeout = WIFSIGNALED(status) && WTERMSIG(status) == SIGVTALRM;
     if (timeout && !single) {
       std::printf("{\"type\":\"slow\",\"fn\":\"%s\",\"n\":%d,\"t\":%lld,\"point\":\"%s\",\"replay\":%s}\n",
@@ -552,8 +597,8 @@ static void explore_function(size_t k, int n, bool thorough, bool single) {
       viol(f, "abnormal termination (" + how + ")", x, n, ctx);
     }
     R.stat("child_restarts");
-    if (single) return;
-    if (restarts > 100000) { R.broken("too many restarts for " + f.name); return; }
+    if (single) { emit_function(f, n); return; }
+    if (restarts > 100000) { R.broken("too many restarts for " + f.name); emit_function(f, n); return; }
     start = t + 1;
   }
 }
@@ -576,12 +621,16 @@ static bool selftest(std::string* why) {
     {[](double x) { return std::fabs(x); }, 0.0, 1.0, V_KINK, "abs at 0 one-sided"},
     {[](double x) { return x < 0 ? 0.0 : 1.0; }, 0.0, 5.0, V_UNSTABLE, "step at 0"},
     {[](double x) { return std::sqrt(x); }, 0.0, 7.0, V_UNSTABLE, "sqrt at 0 (domain edge)"},
-    {[](double x) { return std::sin(1e6 * x); }, 10.0, 123.0, V_UNSTABLE, "aliased oscillation"},
+    {[](double x) { return std::sin(1e4 * x); }, 0.5, 123.0, V_MISMATCH, "fast oscillation resolved by the small steps"},
+    {[](double x) { return std::sin(1e4 * x); }, 0.5, 1e4 * std::cos(5e3), V_OK, "fast oscillation, correct"},
+    {[](double x) { return std::sin(1e6 * x); }, 10.0, 123.0, V_UNSTABLE, "oscillation too fast for every step"},
+    {[](double x) { return x == 0 ? 1e8 : std::fabs(x) < 1e-7 ? 1e8 * std::exp(-x * x * 1e16) : 0.0; }, 0.0, -1e16, V_UNSTABLE, "spike narrower than the large steps"},
+    {[](double x) { return 1e16 + x; }, 2.5, 7.0, V_UNSTABLE, "difference below the noise floor"},
     {[](double x) { return std::exp(-x * x); }, 2.5, -5 * std::exp(-6.25), V_OK, "gaussian"},
   };
   for (auto& t : ts) {
     Dir D = D1(t.g, t.x);
-    Verdict v = verdict(t.a, D, 0, &e);
+    Verdict v = verdict(t.a, D, 0, 0.0, &e);
     if (v != t.want) { *why = std::string("oracle self-test '") + t.name + "': got " + VNAME[v] + " estimates " + e; return false; }
   }
   // covering construction
@@ -594,6 +643,7 @@ static bool selftest(std::string* why) {
 int main(int argc, char** argv) {
   S.parse(argc, argv);
   bool thorough = vx::has_flag(argc, argv, "--thorough");
+  g_lite = vx::has_flag(argc, argv, "--lite");
   if (const char* h = vx::arg_value(argc, argv, "--horizon-ms")) HORIZON_MS = std::atol(h);
   SHM = (Shm*)mmap(nullptr, sizeof(Shm), PROT_READ | PROT_WRITE, MAP_SHARED | MAP_ANONYMOUS, -1, 0);
   if (SHM == MAP_FAILED) { R.broken("mmap failed"); R.done(); return 0; }
@@ -617,7 +667,7 @@ int main(int argc, char** argv) {
   if (S.i == 0) {
     std::string why;
     if (!selftest(&why)) R.broken(why);
-    R.stat("selftest_cases", 12);
+    R.stat("selftest_cases", 16);
   }
   std::set<std::string> names;
   const char* only = vx::arg_value(argc, argv, "--only");      // diagnostics: restrict to one function
